@@ -4,7 +4,10 @@
 (*  {"id", "kinds", "seps", "suppress",                                    *)
 (*   "whole": {lots, qqs, lots_qqs: [interned], ilots: [int], lotnums:     *)
 (*             [int] (numbers read off the lot names), dup_lot, dup_qq},   *)
-(*   "parts": [{lots, qqs, div_ok}]  each element parsed on its own,       *)
+(*   "parts": [{lots, qqs, div_ok, lots_ok}]  each element parsed on its   *)
+(*             own (lots_ok: a lot element yields exactly the lot numbers  *)
+(*             written in it, in order, and no aliquot; an aliquot chain   *)
+(*             yields no lot),                                             *)
 (*   "acres_ok": stated acreages attributed to their lots, "exc"}          *)
 (***************************************************************************)
 EXTENDS TractParse, IOUtils
@@ -30,6 +33,7 @@ Clause(r) ==
   ELSE IF r.whole.lots_qqs # r.whole.lots \o r.whole.qqs THEN "lots_qqs_not_lots_then_qqs"
   ELSE IF r.whole.ilots # r.whole.lotnums THEN "ilots_do_not_mirror_lots"
   ELSE IF \E i \in 1..Len(r.parts) : ~r.parts[i].div_ok THEN "lot_division_rule_broken"
+  ELSE IF \E i \in 1..Len(r.parts) : ~r.parts[i].lots_ok THEN "element_does_not_yield_its_lots_as_written"
   ELSE IF ~r.acres_ok THEN "acreage_not_attributed_to_its_lot"
   ELSE IF r.whole.dup_lot # HasDup(r.whole.lots) THEN "dup_lot_warning_wrong"
   ELSE IF r.whole.dup_qq # HasDup(r.whole.qqs) THEN "dup_qq_warning_wrong"
